@@ -81,7 +81,10 @@ def long_cases(rng, tier):
         op, ptr = rng.choice(LONG)
         bs = bytes.fromhex(op) + bytes([rng.choice([0x10, 0x40, 0x80]), 0x00, 0x00, 0x03, 0x00][: 7 - len(op) // 2])
         regs = rand_regs(rng)
-        regs["I"] = rng.choice([0x2000, 0x2001, 0x2400, 0x3000, 0x4000] + ([0x8000, 0xFFFF, rng.randrange(0x1000, 0x10000)] if tier == "thorough" else []))
+        # counts in the upper half of the 16-bit counter (negative when read as signed) in both tiers: the first two cases always
+        regs["I"] = rng.choice([0x2000, 0x2001, 0x2400, 0x3000, 0x4000, 0x8001, 0x9000, 0xFFFF] + ([0x8000, rng.randrange(0x1000, 0x10000)] if tier == "thorough" else []))
+        if len(out) < 2:
+            regs["I"] = rng.choice([0x8001, 0x8002, 0xC000, 0xFFFF, rng.randrange(0x8001, 0x10000)])
         regs["X"] = rng.choice([0x20000, 0x40000, 0x80000])
         regs["Y"] = rng.choice([0x30000, 0x50000, 0x90000])
         out.append(((bs.hex(), rng.choice([0x1000, 0xC0000]), regs, rand_mem(rng), 0), ptr, len(op) // 2))
